@@ -318,16 +318,52 @@ def gen_ops(prop, hbin, seed, tier, extra):
     return [l for l in out.splitlines() if l.strip()]
 
 
-def run_impl(prop, hbin, ops, seed, tier):
-    """Runs the implementation on op lines; returns lines `op | impl`. A crash is re-run op by op (bounded)."""
-    inp = "\n".join(ops) + "\n"
-    rc, out, err = sh([hbin, "run"], env=harness_env(seed, tier), stdin=inp, timeout=prop.run_timeout[tier])
-    lines = [l for l in out.splitlines() if l.strip()]
-    data = [l for l in lines if not l.startswith("#")]
-    nops = len([o for o in ops if not o.startswith("#")])
-    if rc != 0 or len(data) != nops:
-        raise Broken("harness run failed rc=%d produced %d of %d lines" % (rc, len(data), nops), err[-3000:] + "\nlast line: " + (data[-1] if data else ""))
-    return lines
+def run_impl(prop, hbin, ops, seed, tier, crashes=None):
+    """Runs the implementation on op lines; returns lines `op | impl`.
+
+    A process crash (a Go panic outside the harness's recover, e.g. in a goroutine of the code under test) kills
+    the whole run: the case that was executing is then re-run alone, recorded in `crashes` (with the panic trace)
+    when it crashes again, and the run continues with the remaining cases. A crash is a concrete failing input."""
+    env = harness_env(seed, tier)
+    real = [o for o in ops if not o.startswith("#")]
+    nops = len(real)
+    out_lines, pos, ncrash = [], 0, 0
+    while True:
+        todo = real[pos:]
+        inp = "\n".join(todo) + "\n"
+        rc, out, err = sh([hbin, "run"], env=env, stdin=inp, timeout=prop.run_timeout[tier])
+        lines = [l for l in out.splitlines() if l.strip()]
+        data = [l for l in lines if not l.startswith("#")]
+        if rc == 0 and len(data) == len(todo):
+            return out_lines + lines
+        if ncrash >= 4 and crashes and rc not in (0, 124):
+            return out_lines    # crashes everywhere: four concrete crashing cases are enough, the rest is not run
+        if rc in (0, 124) or crashes is None or len(data) >= len(todo):
+            raise Broken("harness run failed rc=%d produced %d of %d lines" % (rc, len(out_lines) + len(data), nops),
+                         err[-3000:] + "\nlast line: " + (data[-1] if data else ""))
+        # the case that was executing when the process died
+        k = len(data)
+        lo, hi = k, k + 1
+        if prop.group_by_reset:
+            while lo > 0 and todo[lo].split(" ")[0] != "reset":
+                lo -= 1
+            while hi < len(todo) and todo[hi].split(" ")[0] != "reset":
+                hi += 1
+        case = todo[lo:hi]
+        again = 0
+        for _ in range(2):
+            rc2, out2, err2 = sh([hbin, "run"], env=env, stdin="\n".join(case) + "\n", timeout=prop.run_timeout[tier])
+            if rc2 not in (0, 124):
+                again += 1
+                err = err2
+        trace = [l for l in err.splitlines() if l.strip()]
+        head = next((l for l in trace if l.startswith("panic:") or l.startswith("fatal error:")), trace[0] if trace else "")
+        crashes.append({"case": case, "rc": rc, "panic": head[:300], "trace": "\n".join(trace[:40])[:4000],
+                        "crashed_again_alone": "%d of 2" % again})
+        ncrash += 1
+        kept = [l for l in lines if not l.startswith("#")][:lo]
+        out_lines += kept
+        pos += hi
 
 
 def run_model(prop, dbin, lines, tier):
@@ -358,7 +394,8 @@ def known_findings():
 
 def correspond(prop, hbin, dbin, ops, seed, tier):
     """Step 3 on a list of op lines. Returns dict with counts, disagreements, spec failures."""
-    impl_lines = run_impl(prop, hbin, ops, seed, tier)
+    crashes = []
+    impl_lines = run_impl(prop, hbin, ops, seed, tier, crashes)
     stats = [l for l in impl_lines if l.startswith("#")]
     data = [l for l in impl_lines if not l.startswith("#")]
     rc, model, err = run_model(prop, dbin, data, tier)
@@ -381,6 +418,9 @@ def correspond(prop, hbin, dbin, ops, seed, tier):
         if verdict.startswith("0"):
             key = verdict[2:] if verdict.startswith("0:") else ""
             specfails.append({"line": i, "case": data[lo:i + 1], "op": op, "impl": impl, "model": mout, "key": key})
+    for c in crashes:
+        specfails.append({"line": -1 - len(specfails), "case": c["case"], "op": c["case"][-1], "impl": "process crash: " + c["panic"],
+                          "model": "", "key": "process-crash", "trace": c["trace"], "crashed_again_alone": c["crashed_again_alone"]})
     return {"evaluations": len(data), "distinct": len(seen), "distinct_nontrivial": len(nontriv),
             "disagreements": disagreements, "specfails": specfails, "stats": stats, "data": data, "model": model}
 
@@ -461,9 +501,11 @@ def run_prop(prop, tier="quick", seed=None, replay=None):
                 continue
             if len(violations) < 5:
                 n += 1
-                p = write_replay(prop, seed, n, {"kind": "spec-violation", "key": sf["key"], "ops": sf["case"],
-                                                 "impl": sf["impl"], "model": sf["model"],
-                                                 "note": "Spec evaluated on the implementation's output is false"})
+                p = write_replay(prop, seed, n, {"kind": "process-crash" if sf["key"] == "process-crash" else "spec-violation",
+                                                 "key": sf["key"], "ops": sf["case"],
+                                                 "impl": sf["impl"], "model": sf["model"], "trace": sf.get("trace", ""),
+                                                 "note": ("the implementation crashed the process while executing this case (%s when re-run alone)" % sf.get("crashed_again_alone"))
+                                                 if sf["key"] == "process-crash" else "Spec evaluated on the implementation's output is false"})
                 violations.append((p, ""))
         spec_lines = {sf["line"] for sf in res["specfails"]}
         dis = [d for d in res["disagreements"] if d["line"] not in spec_lines]
